@@ -162,6 +162,9 @@ def work(ctx, tier):
         n_hist = (1500 if tier == "quick" else 40000) // ctx.nshards
         for i in range(n_hist):
             _adaptive_history(ctx, viol, world, rng, i)
+        for i in range(n_hist):
+            _adaptive_decimal_history(ctx, viol, rng, i)
+        _adaptive_threads(ctx, viol, tier, rng, world)
 
 
 def _jitter_case(ctx, viol, draws, name, f, fn, g, base, mx, attempt, prev, mode, i):
@@ -233,6 +236,130 @@ def _rao_case(ctx, viol, draws, hint, j, rem, fb, mode):
     ctx.add_hash("nontrivial", ["rao", repr(hint), j, rem, repr(fb), mode if mode != "seeded" else repr(r)])
 
 
+def _adaptive_threads(ctx, viol, tier, rng, world):
+    """adaptive() keeps shared state (the outcome window) behind a lock and is handed to every call of a policy: small concurrent
+    programs of record_success / record_failure / delay computations run under the controlled thread scheduler (pre-emption before
+    every source line of the library); no operation may raise and every delay must be one a sequential order could produce."""
+    import itertools
+
+    from .. import sched
+
+    ctxo = BackoffContext(attempt=1, classification=Classification(klass=K), prev_sleep_s=None, remaining_s=None, cause="exception")
+    OPS = {"S": lambda st: (st.record_success(), "S")[1], "F": lambda st: (st.record_failure(K), "F")[1], "call": lambda st: ("call", st(ctxo))}
+
+    def mk(init):
+        def make():
+            world.t = 1024.0
+            st = adaptive(lambda c: 1.0, window_s=10.0, target_success=0.5, min_multiplier=1.0, max_multiplier=5.0)
+            for x in init:
+                if x == "adv":
+                    world.t += 6.0
+                else:
+                    OPS[x](st)
+            return st
+
+        return make
+
+    progs = [
+        ((), [["call"], ["F"]]),
+        (("F",), [["call"], ["S"]]),
+        (("F", "S"), [["call"], ["F"], ["F"]]),
+        (("F", "adv", "S", "adv"), [["call"], ["F"]]),
+        (("S", "F", "F"), [["call", "call"], ["S", "F"]]),
+        (("F", "adv", "F", "adv"), [["call"], ["call"], ["S"]]),
+    ]
+    limit = 120 if tier == "quick" else 3000
+    nrandom = 30 if tier == "quick" else 400
+    for pi, (init, prog) in enumerate(progs):
+        if pi % ctx.nshards != ctx.shard:
+            continue
+        make = mk(init)
+        spec = set()
+        tags = [i for i, p_ in enumerate(prog) for _ in p_]
+        for perm in set(itertools.permutations(tags)):
+            st = make()
+            res = [[] for _ in prog]
+            pos = [0] * len(prog)
+            for i in perm:
+                res[i].append(OPS[prog[i][pos[i]]](st))
+                pos[i] += 1
+            spec.add((tuple(tuple(r) for r in res), OPS["call"](st)))
+        pr = [[OPS[o] for o in th] for th in prog]
+        prefix, n, mode, rw = [], 0, "dfs", 0
+        desc = {"adaptive_threads": {"initial": list(init), "program": prog}}
+        while True:
+            r = sched.run_schedule(make, pr, prefix=prefix if mode == "dfs" else (), rng=None if mode == "dfs" else rng)
+            s_ = r["sched"]
+            n += 1
+            key = [x[1] for x in s_.trace]
+            ctx.cnt["adaptive_thread_schedules"] += 1
+            ctx.cnt["evaluations"] += 1
+            if not r["completed"] and not s_.deadlock:
+                ctx.inconclusive_because(f"scheduler watchdog fired for {desc}")
+                break
+            if s_.deadlock or r["errors"]:
+                viol("adaptive-raised-under-concurrency" if r["errors"] else "adaptive-deadlock", f"{r['errors'] or 'all threads blocked'} in {desc}; schedule {key}", dict(desc, schedule=key))
+                break
+            got = (tuple(tuple(x) for x in r["results"]), OPS["call"](r["obj"]))
+            if got not in spec:
+                viol("adaptive-non-linearizable", f"{desc}: results {got} equal no sequential ordering ({len(spec)} sequential outcomes); schedule {key}", dict(desc, schedule=key))
+                break
+            if mode == "dfs":
+                nxt = sched.next_prefix(s_.trace, 2)
+                if nxt is None or n >= limit:
+                    mode = "random"
+                    continue
+                prefix = nxt
+            else:
+                rw += 1
+                if rw >= nrandom:
+                    break
+        ctx.cnt["adaptive_thread_programs"] += 1
+        ctx.cnt["adaptive_thread_lock:" + r["lock_how"]] += 1
+    sched.uninstall_monitor()
+
+
+def _adaptive_decimal_history(ctx, viol, rng, i):
+    """adaptive() with an injected clock (public `clock=` parameter) whose readings are ordinary decimal values - tenths of a second
+    from 0 - so that an event's age lands on window_s up to float rounding (0.1 -> 5.1 with window 5.0): any two spellings of
+    'older than the window' that differ only in rounding must not disagree in a way that makes the strategy raise."""
+    window = rng.choice([0.3, 1.0, 2.5, 5.0, 10.0, 60.0])
+    target = rng.choice([1.0, 0.9, 0.5, 0.1])
+    mn = rng.choice([1.0, 1.5])
+    mxm = rng.choice([mn + 1.0, 5.0])
+    tenths = [rng.randint(0, 30)]
+    st = adaptive(lambda c: 1.0, window_s=window, target_success=target, min_multiplier=mn, max_multiplier=mxm, clock=lambda: tenths[0] / 10)
+    cfgd = {"window_s": window, "target_success": target, "min_multiplier": mn, "max_multiplier": mxm, "clock": "tenths of a second"}
+    hist = [["t", tenths[0] / 10]]
+    w10 = int(round(window * 10))
+    ctxo = BackoffContext(attempt=1, classification=Classification(klass=K), prev_sleep_s=None, remaining_s=None, cause="exception")
+    for step in range(rng.randint(2, 14)):
+        op = rng.random()
+        try:
+            if op < 0.25:
+                st.record_success()
+                hist.append("S")
+            elif op < 0.5:
+                st.record_failure(K)
+                hist.append("F")
+            elif op < 0.75:
+                tenths[0] += rng.choice([0, 1, 2, 3, w10 - 1, w10, w10, w10 + 1, 2 * w10])
+                hist.append(["t", tenths[0] / 10])
+            else:
+                r = st(ctxo)
+                ctx.cnt["eval:adaptive"] += 1
+                ctx.cnt["eval:adaptive-decimal-clock"] += 1
+                ctx.cnt["evaluations"] += 1
+                hist.append(["call", r])
+                if not isinstance(r, float) or r != r or not (close_le(mn, r) and close_le(r, mxm)):
+                    viol("adaptive-outside-multiplier-range", f"adaptive returned {r!r} for fallback 1.0; expected within [{mn}, {mxm}]; {cfgd} history {hist}", {"cfg": cfgd, "history": hist})
+                    return
+        except BaseException as x:  # noqa: BLE001
+            viol("strategy-raised:" + type(x).__name__, f"adaptive raised {type(x).__name__}: {x}; {cfgd} history {hist}", {"cfg": cfgd, "history": hist})
+            return
+    ctx.add_hash("nontrivial", ["adaptive-decimal", cfgd, hist])
+
+
 def _adaptive_history(ctx, viol, world, rng, i):
     window = rng.choice([1.0, 10.0, 60.0])
     target = rng.choice([1.0, 0.9, 0.5, 0.1, 1e-9, 0.99, 1e-17, 5e-324, 1e-300, 1.0 - 2.0**-53])
@@ -290,12 +417,15 @@ def conclude(ctx):
         floors["draw:" + d] = (ctx.cnt.get("draw:" + d, 0), 100)
     for a in ("min", "max", "between"):
         floors["adaptive_multiplier:" + a] = (ctx.cnt.get("adaptive_multiplier:" + a, 0), 20)
+    floors["eval:adaptive-decimal-clock"] = (ctx.cnt["eval:adaptive-decimal-clock"], 500)
+    floors["adaptive_thread_schedules"] = (ctx.cnt["adaptive_thread_schedules"], 200)
     if not ctx.samples:
         ctx.sample({"strategy": "equal_jitter", "base_s": 0.25, "max_s": 30.0, "attempt": 1024, "draw": "upper"})
     return dict(
         rule=(
             "systematic grid (strategy x 14 parameterisations x ~270 attempt numbers incl. 1023/1024/1751/2^k+-1/1e30 x draw modes) + seeded random cases; "
-            "retry_after_or grid over hints x jitter x remaining x fallback garbage x draw; adaptive fed random success/failure/clock histories; "
+            "retry_after_or grid over hints x jitter x remaining x fallback garbage x draw; adaptive fed random success/failure/clock histories (dyadic clock; and an injected clock in tenths of a second so that ages land on window_s up to float rounding) "
+            "and run as small concurrent programs under the controlled thread scheduler; "
             "one evaluation = one call of a real strategy callable with its postcondition checked; distinct = distinct input tuples (seeded draws distinguished by result)"
         ),
         evaluations=ctx.cnt["evaluations"],
